@@ -28,6 +28,7 @@ type Obligation struct {
 	Secs   float64
 	Model  string
 	Dead   bool
+	Except string // known finding: Bool term describing the recorded failing inputs
 }
 
 // Exec is the verification-condition generator state for one function under verification.
@@ -73,6 +74,7 @@ type Exec struct {
 	effBusy      map[*ssa.Function]bool
 	curPos       token.Pos
 	prevTop      string
+	kfExcept     map[string]string
 	loopStatic   map[*loopInfo]map[string]bool
 	interiorArgs bool
 	allocBase    string // when set: the allocation top that allocated() compares against (call sites)
@@ -92,7 +94,7 @@ func newExec(P *Program, bv bool) *Exec {
 		oblCount: map[string]int{}, logicals: map[string]*Val{}, tags: map[string]int{}, globalRefs: map[*ssa.Global]int{},
 		usedContract: map[string]bool{}, usedModels: map[string]bool{}, inlined: map[string]bool{},
 		genTop: map[int]string{}, genMerges: map[int]genMerge{}, keyInfo: map[string]compInfo{}, effCache: map[*ssa.Function]*WriteSet{}, effBusy: map[*ssa.Function]bool{},
-		natDone: map[string]bool{}, natTerms: map[int][][2]string{}, loopStatic: map[*loopInfo]map[string]bool{}, rootFresh: map[string]bool{}, loopFresh: map[*loopInfo]map[string]bool{}}
+		natDone: map[string]bool{}, natTerms: map[int][][2]string{}, loopStatic: map[*loopInfo]map[string]bool{}, kfExcept: map[string]string{}, rootFresh: map[string]bool{}, loopFresh: map[*loopInfo]map[string]bool{}}
 	return x
 }
 
